@@ -22,7 +22,7 @@ import time
 import traceback
 
 VERIF = "/verif"
-REPO = "/repo"
+REPO = os.environ.get("VERIF_REPO", "/repo")
 sys.path.insert(0, VERIF)
 if REPO not in sys.path:
     sys.path.insert(0, REPO)
@@ -93,7 +93,7 @@ def vo_fresh(modname, deps):
 
 # ------------------------------------------------------------------ helpers
 def load_known():
-    p = os.path.join(VERIF, "known_findings.json")
+    p = os.environ.get("VERIF_KNOWN", os.path.join(VERIF, "known_findings.json"))
     if not os.path.exists(p):
         return []
     return json.load(open(p))["findings"]
@@ -198,7 +198,7 @@ def pipeline(mod, pid, tier, seed, args, work, t0):
     notes = []
 
     # ---- 1. proof obligations
-    ok_build, build_log = build_coq(clean=(tier == "thorough" and os.environ.get("VERIF_NOCLEAN") != "1"))
+    ok_build, build_log = build_coq(clean=False)  # never clean: concurrent checks share the .vo files; bin/setup builds from scratch on a fresh restore
     prop_mod = getattr(mod, "PROP_MODULE", "Prop_" + pid)
     theorems = list(mod.OBLIGATIONS)
     fresh, why = vo_fresh(prop_mod, getattr(mod, "COQ_REQUIRE", []))
